@@ -17,7 +17,28 @@ fn break_program(r: &mut Rng, text: &str) -> (String, Vec<String>) {
     let mut lines: Vec<String> = text.lines().map(|s| s.to_owned()).collect();
     let mut tags = Vec::new();
     let start_at = lines.iter().position(|l| l.trim_start().starts_with("start:")).map(|p| p + 1).unwrap_or(lines.len());
-    match r.below(5) {
+    match r.below(7) {
+        5 | 6 => {
+            // undefined labels inside macro bodies: every expansion is parsed on its own, so the
+            // recorded positions are relative to the expanded text and may coincide
+            let n = r.urange(2, 5);
+            let at_def = lines.iter().position(|l| l.trim_start().starts_with("start:")).unwrap_or(0);
+            for k in 0..n {
+                lines.insert(at_def, format!("macro mu_{}() -> jmp UM_{} <-", k, k));
+            }
+            let start_at = start_at + n;
+            let mut order: Vec<usize> = (0..n).collect();
+            r.shuffle(&mut order);
+            for k in order {
+                let at = r.urange(start_at, lines.len());
+                lines.insert(at, format!("mu_{}()", k));
+            }
+            if r.chance(40) {
+                let at = r.urange(start_at, lines.len());
+                lines.insert(at, "jmp U_plain".to_owned());
+            }
+            tags.push("undefined_labels_inside_macros".to_owned());
+        }
         0 | 1 | 2 => {
             // 2..6 jumps to labels that are never defined
             let n = r.urange(2, 6);
@@ -127,6 +148,27 @@ fn make_env_case(r: &mut Rng, seed: u64, run: u64, stats: &mut Stats) -> Option<
             g.idx_line.clear();
             g.idx_class.clear();
         });
+    }
+    if !invalid && r.chance(30) {
+        // labels that differ only in case from existing ones: harmless in a correct emulator
+        let text = String::from_utf8_lossy(&case.scn.source.0).into_owned();
+        let mut lines: Vec<String> = text.split('\n').map(|s| s.to_owned()).collect();
+        let start_at = lines.iter().position(|l| l.trim_start().starts_with("start:")).map(|p| p + 1).unwrap_or(lines.len());
+        let n = r.urange(1, 3);
+        for _ in 0..n {
+            let at = r.urange(start_at.min(lines.len()), lines.len());
+            let l = *r.pick(&["Start:", "START:", "sTART:", "l_1:", "l_2:", "P_0:", "D_0:"]);
+            if !lines.iter().any(|x| x.trim() == l) {
+                lines.insert(at, l.to_owned());
+            }
+        }
+        let t2 = lines.join("\n");
+        if assemble_count(&t2).is_some() {
+            case.scn.source = Bytes(t2.into_bytes());
+            if let Some(g) = case.gen.as_mut() {
+                g.tags.push("case_variant_labels".to_owned());
+            }
+        }
     }
     let n_env = r.urange(2, 4);
     let mut kinds_all = Vec::new();
